@@ -15,7 +15,7 @@ CHECKS = {
         "on the implementation's outputs and an end-to-end rank-simulated run of the Redfield rate kernel.",
    note=TB + "All C20 theorems are closed under the global context. MPI transport is not modelled (a rank is a stub "
         "DistributedConfiguration).",
-   design="7/C20", technique="Coq proof (lia/nia + induction over ranks) + exhaustive in-Coq correspondence"),
+   design="7/C20", technique="Coq proof (lia/nia + induction over ranks) + _calculate_ranges regenerated from the source by a translator with a machine-checked equivalence lemma + exhaustive in-Coq correspondence"),
  "C17": dict(
    text="Proved in Coq over every commutative ring and every matrix size: any history of set_rate calls (accepted or refused, "
         "negative/out-of-range/diagonal indices included) keeps all column sums and leaves in each off-diagonal element the "
@@ -113,7 +113,7 @@ CHECKS = {
         "Gaussian-integer inputs compared with = inside Coq; end to end (random aggregates x theories x options) the tensor is compared "
         "(1e-12 relative) with the model fed the run's own K_m, Lambda_m / rate matrix / Redfield part. Modified Redfield and "
         "TDRedfieldFoerster cannot be built on the pinned tree (TypeError / not offered) and are counted as unavailable, not judged.",
-   design="7/C01", technique="Coq proof (ring algebra over an abstract *-ring, sums by induction) + in-Coq differential correspondence (exact on Gaussian integers, 1e-12 end to end)"),
+   design="7/C01", technique="Coq proof (ring algebra over an abstract *-ring, sums by induction) + model of three kernels regenerated from the source by a translator with machine-checked equivalence lemmas + in-Coq differential correspondence (exact on Gaussian integers, 1e-12 end to end)"),
  "C03": dict(
    text="Proved in Coq: for EVERY number of molecules, every level structure and every multiplicity the signature enumeration "
         "(elsignatures/_add_excitation/allstates) is complete, duplicate free and ordered by band; which_band is the excitation "
